@@ -148,14 +148,45 @@ class G:
                 lines.append('%swhile %s > 0:' % (ind, v))
                 lines.append('%s    %s -= 1' % (ind, v))
                 local.append(v)
-            elif k < 0.93:
+            elif k < 0.88:
                 v, w = self.fresh(), self.fresh()
                 lines.append('%s%s = %s; %s = %s' % (ind, v, self.expr(local, 1), w, self.expr(local + [v], 1)))
                 local += [v, w]
-            else:
+            elif rng.random() < 0.3:
                 v = self.fresh()
                 lines.append('%s%s = (%s +' % (ind, v, self.expr(local, 1, 10)))
                 lines.append('%s        %s)' % (ind, self.expr(local, 1, 11)))
+                local.append(v)
+            elif self.funcs and rng.random() < 0.5:
+                # a call spread over several lines: every argument is the first token of a
+                # continuation line, with comment / blank lines in front of some of them
+                v = self.fresh()
+                f, n = rng.choice(self.funcs)
+                args = [self.expr(local, 1) for _ in range(n)]
+                if rng.random() < 0.5:
+                    lines.append('%s%s = %s(' % (ind, v, f))
+                    for i, a in enumerate(args):
+                        if rng.random() < 0.45:
+                            lines.append('%s    # %s' % (ind, rng.choice(['scale factor', 'second', 'größe', 'x = 1'])))
+                        if rng.random() < 0.15:
+                            lines.append('')
+                        lines.append('%s    %s%s' % (ind, a, ',' if i < n - 1 else ')'))
+                else:
+                    head = '%s%s = %s(' % (ind, v, f)
+                    lines.append(head + args[0] + (',' if n > 1 else ')'))
+                    for i, a in enumerate(args[1:], 1):
+                        lines.append(' ' * len(head) + a + (',' if i < n - 1 else ')'))
+                local.append(v)
+            else:
+                # a bracketed multi-line display with comment / blank lines between the elements
+                v = self.fresh()
+                lines.append('%s%s = (' % (ind, v))
+                if rng.random() < 0.6:
+                    lines.append('%s    # %s' % (ind, rng.choice(['first', 'scale factor', 'größe'])))
+                lines.append('%s    %s,' % (ind, self.expr(local, 1)))
+                if rng.random() < 0.3:
+                    lines.append('')
+                lines.append('%s    %s)[%d]' % (ind, self.expr(local, 1), rng.randint(0, 1)))
                 local.append(v)
             if rng.random() < 0.12:
                 lines.append('')
